@@ -394,6 +394,9 @@ def random_instance(rnd, family, stable=False):
         # the worm mating was first declared with another friction (a sweep over friction coefficients on the same objects)
         i = rnd.choice(wormed)
         inst['pre_worm'] = {i: rnd.choice([F(9, 10), F(3, 5), F(2, 5), F(1, 20), F(1, 1000), sig(rnd.uniform(0, 0.9))])}
+    spur_pairs = [i for i in range(1, n_elems) if elems[i]['rel']['type'] == 'gear' and elems[i]['kind'] == 'SpurGear' and elems[i - 1].get('module') is None]
+    if spur_pairs and rnd.random() < 0.25:
+        inst['fork_after_build'] = [rnd.choice(spur_pairs)]         # a second layout declared from shared elements after assembly
     geared = [i for i in range(1, n_elems) if elems[i]['rel']['type'] == 'gear']
 
     def redeclare():
